@@ -1,7 +1,7 @@
 (* Property C04: incremental reads guided by the missing-byte count reassemble the stream.
    Statements only; Reader/Reader.v is the reader loop, Lemmas/ReaderLemmas.v the induction over chunk lists. *)
 From Coq Require Import ZArith List Bool.
-From CP Require Import Core.Bytes Core.Result Frame.LVFrame Frame.Units Reader.Reader Lemmas.ReaderLemmas Lemmas.UnitLemmas Lemmas.UnitInstances.
+From CP Require Import Core.Bytes Core.Result Frame.LVFrame Frame.Units Reader.Reader Lemmas.ReaderLemmas Lemmas.UnitLemmas Lemmas.UnitInstances Frame.Ssl2 Lemmas.Ssl2Lemmas.
 Open Scope Z_scope.
 
 (* generic: for any parser and any sequence of frames that round-trip with a suffix and whose proper prefixes are
@@ -37,3 +37,9 @@ Proof. intros hv parse compose okv declared U. exact (unit_reader parse compose 
 Theorem C04_prefix_tls_record : forall x b k, compose_tls_record x = Ok b -> 0 <= k < zlen b ->
   exists m, parse_tls_record (firstn (Z.to_nat k) b) = Err (NotEnoughData m) /\ 1 <= m <= zlen b - k.
 Proof. intros x b k C Hk. destruct tls_record_unit as [_ [_ [_ [P _]]]]. exact (P x b k I C Hk). Qed.
+
+(* SSL 2.0 records: every proper prefix of a record that parses exactly is rejected with NotEnoughData m, 1 <= m <= missing *)
+Theorem C04_ssl2_prefix_rejected : forall msg types f x k,
+  ssl2_parse msg types f = Ok (x, zlen f) -> 0 <= k < zlen f ->
+  exists m, ssl2_parse msg types (firstn (Z.to_nat k) f) = Err (NotEnoughData m) /\ 1 <= m <= zlen f - k.
+Proof. exact ssl2_prefix_rejected. Qed.
